@@ -120,6 +120,16 @@ EntryClause(e) ==
              ELSE IF AbsV(e.lp - (e.lpe + e.lpne)) > 3 THEN "non-emitting-probability-is-not-length-penalty-plus-minimum"
              ELSE "")
 
+\* ---- scoring order.  Every entry carries the sequence number of the moment its score was last written (creation or
+\* in-place replacement by a better candidate) and the expansion round (expand_now) in which that happened.  In a
+\* single pass every entry is final before it is expanded, so a predecessor is always scored before its successors;
+\* in an expansion round (widening / extension) an already expanded entry can be replaced in place, and a successor
+\* that is not re-scored afterwards keeps a score that belongs to the replaced version (finding F-stale).
+ScoredBeforePredecessor(e) == e.prev # 0 /\ e.stamp # 0 /\ E[e.prev].stamp > e.stamp
+PredecessorRound(e) == IF e.prev = 0 THEN 0 ELSE E[e.prev].round
+\* a fresh run never shows the pattern
+FreshOrder == R.fresh => \A j \in 1..Len(E) : ~ScoredBeforePredecessor(E[j])
+
 \* entries to validate: those on the best path (always) and, for fresh runs, every entry of the lattice
 RECURSIVE FirstBadEntry(_, _)
 FirstBadEntry(idxs, j) ==
@@ -133,5 +143,11 @@ Report == done =>
   LET onpath == FirstBadEntry(R.path, 1)
       all == IF R.fresh THEN FirstBadEntry([j \in 1..Len(E) |-> j], 1) ELSE <<"", 0>> IN
   PrintT(ToJson([tid |-> R.tid, path_clause |-> onpath[1], path_at |-> onpath[2],
-                 any_clause |-> all[1], any_at |-> all[2], n |-> Len(E)]))
+                 any_clause |-> all[1], any_at |-> all[2], n |-> Len(E),
+                 path_stale |-> (onpath[2] # 0 /\ ScoredBeforePredecessor(E[onpath[2]])),
+                 path_stale_round |-> (IF onpath[2] # 0 THEN PredecessorRound(E[onpath[2]]) ELSE 0),
+                 fresh_order |-> FreshOrder,
+                 \* Lattice.Upsert replaces an entry as a whole; R.partial counts in-place replacements that left a model
+                 \* field of the old entry behind
+                 replacements_complete |-> (R.partial = 0)]))
 =============================================================================
